@@ -506,6 +506,98 @@ mod mon_bytes_run {
         let n = if thorough { 2_000_000 } else { 150_000 };
         let sp = Space::full();
         let mut acc = bulk(n, seed, &sp, None, check_c10);
+        // front ends: the CLI flags (single source of the two opt-ins for command-line users) and the
+        // action wrapper's INPUT_ALLOW_* switches, unseeded batch runs, outputs lexed
+        if std::env::var("PFV_CLI").is_ok() {
+            let samples = if thorough { 400 } else { 60 };
+            let combos: Vec<(bool, bool)> = vec![(false, false), (true, false), (false, true), (true, true)];
+            let mut jobs: Vec<(u8, bool, bool, bool, bool)> = Vec::new(); // proto, ext, buf, mutators, via wrapper
+            for proto in [2u8, 3, 4, 5] {
+                for &(e, b) in &combos {
+                    jobs.push((proto, e, b, false, false));
+                    jobs.push((proto, e, b, true, false));
+                    if proto == 5 || proto == 2 {
+                        jobs.push((proto, e, b, false, true));
+                    }
+                }
+            }
+            let jobs_ref = &jobs;
+            let fe = par_run(
+                jobs.len(),
+                Acc::new,
+                |i, acc| {
+                    let (proto, e, b, muts, wrapper) = jobs_ref[i];
+                    let files = if wrapper {
+                        let truth = ["true", "1", "yes", "TRUE"][i % 4];
+                        let mut inputs: Vec<(&str, String)> = vec![("INPUT_PROTOCOL", proto.to_string())];
+                        inputs.push(("INPUT_ALLOW_EXT", if e { truth.to_string() } else { "false".to_string() }));
+                        inputs.push(("INPUT_ALLOW_BUFFER", if b { truth.to_string() } else { "false".to_string() }));
+                        action_batch(&inputs, samples)
+                    } else {
+                        let mut args: Vec<String> = vec!["--protocol".into(), proto.to_string()];
+                        if e {
+                            args.push("--allow-ext".into());
+                        }
+                        if b {
+                            args.push("--allow-buffer".into());
+                        }
+                        if muts {
+                            args.extend(["--unsafe-mutations", "--mutation-rate", "0.5", "--mutators", "all"].iter().map(|s| s.to_string()));
+                        }
+                        cli_batch(&args, samples, &[])
+                    };
+                    let fe_name = if wrapper { "action wrapper" } else { "CLI" };
+                    match files {
+                        Err(m) => acc.inconclusive.push(format!("{} batch run failed: {}", fe_name, m)),
+                        Ok(files) => {
+                            for bytes in &files {
+                                acc.evaluations += 1;
+                                let Ok(l) = crate::lexer::lex(bytes) else {
+                                    acc.count("undecodable_outputs_not_judged_here", 1);
+                                    continue;
+                                };
+                                acc.count(if wrapper { "wrapper_files_scanned" } else { "cli_files_scanned" }, 1);
+                                for ins in &l.ins {
+                                    let is_ext = matches!(ins.op.name, "EXT1" | "EXT2" | "EXT4");
+                                    let is_buf = matches!(ins.op.name, "NEXT_BUFFER" | "READONLY_BUFFER");
+                                    if is_ext && e {
+                                        acc.count("cli_positive_control_ext", 1);
+                                    }
+                                    if is_buf && b {
+                                        acc.count("cli_positive_control_buffer", 1);
+                                    }
+                                    if (is_ext && !e) || (is_buf && !b) {
+                                        let msg = format!(
+                                            "{} output for protocol {} contains {} although allow-ext={} allow-buffer={} (mutators: {})",
+                                            fe_name, proto, ins.op.name, e, b, muts
+                                        );
+                                        acc.violate(Violation {
+                                            property: "C10".into(),
+                                            signature: format!("C10:{}:{}:P{}", if wrapper { "wrapper" } else { "cli" }, ins.op.name, proto),
+                                            message: msg.clone(),
+                                            replay: json!({"kind": "c10-frontend", "property": "C10", "frontend": fe_name, "protocol": proto,
+                                                "allow_ext": e, "allow_buffer": b, "mutators_all_unsafe": muts, "message": msg,
+                                                "output_hex": hex(&bytes[..bytes.len().min(4096)])}),
+                                        });
+                                        break;
+                                    }
+                                }
+                            }
+                        }
+                    }
+                },
+                |a, b| a.merge(b),
+            );
+            acc.merge(fe);
+            if acc.get("cli_files_scanned") < 100 || acc.get("wrapper_files_scanned") < 100 {
+                acc.inconclusive.push("too few front-end outputs scanned".into());
+            }
+            if acc.get("cli_positive_control_ext") == 0 || acc.get("cli_positive_control_buffer") == 0 {
+                acc.inconclusive.push("front-end positive control failed: opt-in opcodes never seen with the flag on".into());
+            }
+        } else {
+            acc.count("frontends_skipped_no_PFV_CLI", 1);
+        }
         for k in ["cases_flags_ext0_buf0", "cases_flags_ext1_buf0", "cases_flags_ext0_buf1", "cases_flags_ext1_buf1"] {
             if acc.get(k) < 1000 {
                 acc.inconclusive.push(format!("too few {}", k));
@@ -516,7 +608,7 @@ mod mon_bytes_run {
         }
         CheckOutput {
             acc,
-            rule: "cases = full configuration matrix incl. unsafe, the four opt-in flag combinations drawn uniformly; distinct = distinct output bytes; non-trivial = at least eight decoded opcodes".into(),
+            rule: "cases = full configuration matrix incl. unsafe, the four opt-in flag combinations drawn uniformly + unseeded batch runs of the built CLI (--allow-ext / --allow-buffer, with and without '--mutators all --unsafe-mutations') and of scripts/action-run.sh (INPUT_ALLOW_EXT / INPUT_ALLOW_BUFFER with the documented truthy spellings) for the four combinations; distinct = distinct output bytes; non-trivial = at least eight decoded opcodes".into(),
             extra: json!({}),
             assumptions: std_assumptions(),
             exhaustive: None,
